@@ -270,6 +270,73 @@ def AReg.toPReg (i : Include) : AReg α → PReg α
 
 end field
 
+/-! ### polygons whose vertices are numpy INTEGER arrays
+
+`PixCoord` keeps the dtype of array coordinates (scalar coordinates become Python numbers via
+`.item()`), so `self.vertices.x - origin[0]` is numpy arithmetic: with a Python `int` origin
+component the subtraction stays in the array's dtype (NEP 50) — `OverflowError` when the Python
+int does not fit the dtype, silent wrap-around when the difference does not; with any other
+origin component (Python float, numpy float64/int64 scalar or array) the result is promoted and
+exact. -/
+
+structure IntDT where
+  bits : Nat
+  signed : Bool
+deriving DecidableEq, Repr
+
+def IntDT.lo (d : IntDT) : Int := if d.signed then -(2 ^ (d.bits - 1)) else 0
+def IntDT.hi (d : IntDT) : Int := if d.signed then 2 ^ (d.bits - 1) - 1 else 2 ^ d.bits - 1
+/-- two's-complement wrap-around into the dtype's range. -/
+def IntDT.wrap (d : IntDT) (n : Int) : Int := (n - d.lo) % (2 ^ d.bits) + d.lo
+
+/-- `int_array - python_int` for one element. -/
+def npSubPyInt (d : IntDT) (v o : Int) : Except String Int :=
+  if o < d.lo ∨ d.hi < o then .error "OverflowError" else .ok (d.wrap (v - o))
+
+/-- one component of the plot origin. -/
+inductive OriginC (α : Type) where
+  | pyInt (n : Int)          -- a Python int
+  | other (x : α)            -- Python float, numpy scalar or array element (promotes)
+deriving Repr
+
+section intpoly
+variable {α : Type} [Field α]
+
+def OriginC.val : OriginC α → α
+  | .pyInt n => (n : α)
+  | .other x => x
+
+def subIntCoord (d : IntDT) (v : Int) : OriginC α → Except String α
+  | .pyInt o =>
+    match npSubPyInt d v o with
+    | .ok n => .ok (n : α)
+    | .error e => .error e
+  | .other x => .ok ((v : α) - x)
+
+def subIntCoords (d : IntDT) (o : OriginC α) : List Int → Except String (List α)
+  | [] => .ok []
+  | v :: t =>
+    match subIntCoord d v o, subIntCoords d o t with
+    | .ok a, .ok r => .ok (a :: r)
+    | .error e, _ => .error e
+    | _, .error e => .error e
+
+/-- `PolygonPixelRegion.as_artist` for integer vertex arrays of dtype `d`. -/
+def polygonArtistInt (d : IntDT) (vs : List (Int × Int)) (ox oy : OriginC α) : Except String (Patch α) :=
+  match subIntCoords d ox (vs.map Prod.fst), subIntCoords d oy (vs.map Prod.snd) with
+  | .ok xs, .ok ys => .ok (.polygon (List.zipWith Pt.mk xs ys))
+  | .error e, _ => .error e
+  | _, .error e => .error e
+
+/-- the component cannot overflow or wrap: either it promotes, or the Python int and every
+difference fit the dtype. -/
+def coordSafe (d : IntDT) (o : OriginC α) (vs : List Int) : Bool :=
+  match o with
+  | .other _ => true
+  | .pyInt n => decide (d.lo ≤ n ∧ n ≤ d.hi) && vs.all fun v => decide (d.lo ≤ v - n ∧ v - n ≤ d.hi)
+
+end intpoly
+
 /-! ## keyword arguments: `RegionVisual.define_mpl_kwargs` and the caller's `**kwargs` -/
 
 /-- values of visual attributes / matplotlib keyword arguments. -/
